@@ -14,3 +14,6 @@ EXTRA_ASSUMPTIONS = [
     "TRUSTED: the contracts of an action space have pairwise distinct static hashes (PortfolioSpace.__init__ rejects duplicates; the source notes the FutureChain/Future corner)",
     "ASSUMED contracts: TradingEnv._process_latent_events/_process_nonlatent_events, notify, IState.__call__, TrackRecord._checkpoint/__getitem__",
 ]
+
+from shell import c08 as _c08
+SHELL = [_c08.timing]
